@@ -477,10 +477,10 @@ Definition is_text (d : data) : bool := match d with DText _ => true | _ => fals
 Fixpoint snoc_merge (cs : list rt) (n : rt) : list rt :=
   match cs with
   | [] => [n]
-  | [R m (DText c1) _] =>
+  | [R m (DText c1) mk] =>
     match n with
     | R i (DText c2) ncs => [R i (DText (c1 ++ c2)) ncs]
-    | _ => [R m (DText c1) []; n]
+    | _ => [R m (DText c1) mk; n]
     end
   | c :: rest => c :: snoc_merge rest n
   end.
